@@ -619,6 +619,22 @@ def init_stores(vars_: Dict[str, dict]) -> List[list]:
     return out
 
 
+def f6_guard_loads(body_items, names) -> List[list]:
+    """Finding F6 exclusion by construction: a routine-local variable with exactly one load and two or more stores
+    can have its `store k; load k` pair cancelled by the slot optimiser, which then deletes the other stores and leaves
+    their operands on the stack.  Giving such a variable a second load keeps the optimiser from cancelling it.
+    Returns extra statements (to be placed right after the initialising stores)."""
+    loads = {n: 0 for n in names}
+    stores = {n: 0 for n in names}
+    for it in body_items:
+        for nd in N.walk(it):
+            if nd[0] == "load" and nd[1] in loads:
+                loads[nd[1]] += 1
+            elif nd[0] == "store" and nd[1] in stores:
+                stores[nd[1]] += 1
+    return [["pop", ["load", n]] for n in names if loads[n] == 1 and stores[n] >= 1]
+
+
 @st.composite
 def core_recipe(draw, max_budget=40, opts=None):
     """Single-routine recipe over the core grammar (C01)."""
@@ -630,7 +646,10 @@ def core_recipe(draw, max_budget=40, opts=None):
     stmts = [g.S(cx.sub()) for _ in range(g.i(1, 4))]
     final = g.U(cx.sub()) if g.chance(7) else ["return", g.U(cx.operand())]
     main_items = stmts + [final]
-    recipe = {"mode": mode, "level": level, "vars": g.vars, "routines": [], "main": ["seq", init_stores(g.vars) + main_items]}
+    guard = f6_guard_loads(main_items, [n for n, d in g.vars.items() if d.get("kind") != "dyn"])
+    recipe = {"mode": mode, "level": level, "vars": g.vars, "routines": [], "main": ["seq", init_stores(g.vars) + guard + main_items]}
+    if guard:
+        recipe["f6_guards"] = len(guard)
     if g.anytype:
         recipe["anytype"] = True
     return recipe
